@@ -729,3 +729,198 @@ Proof.
   - exact Hds.
   - rewrite Hds, Edata. rewrite skipn_app, skipn_all, Nat.sub_diag. reflexivity.
 Qed.
+
+(** ================= Part C: the double-ended argument iterator ================= *)
+Section DoubleEndedProofs.
+Variable data : bytes.
+Variable exts : list posdata.
+Variable di : nat.
+Notation argf := (arg_at data exts).
+Definition rng (index back : nat) : list nat := map (Nat.add di) (seq index (back - index)).
+
+Lemma rng_nil index back : (back <= index)%nat -> rng index back = [].
+Proof. intros H. unfold rng. replace (back - index)%nat with 0%nat by lia. reflexivity. Qed.
+Lemma rng_cons index back : (index < back)%nat -> rng index back = (di + index)%nat :: rng (S index) back.
+Proof.
+  intros H. unfold rng. replace (back - index)%nat with (S (back - S index)) by lia. reflexivity.
+Qed.
+Lemma rng_snoc index back : (index < back)%nat -> rng index back = rng index (back - 1) ++ [(di + back - 1)%nat].
+Proof.
+  intros H. unfold rng. replace (back - index)%nat with ((back - 1 - index) + 1)%nat by lia.
+  rewrite seq_app, map_app. cbn [seq map]. do 2 f_equal. lia.
+Qed.
+
+Lemma args_loop_char : forall fuel index back, (back - index <= fuel)%nat ->
+  args_loop args_end fuel data exts di back index = omap argf (rng index back).
+Proof.
+  induction fuel as [|fuel IH]; intros index back Hf.
+  - cbn [args_loop]. unfold args_end. destruct (Nat.leb_spec back index); [|lia].
+    rewrite rng_nil by lia. reflexivity.
+  - cbn [args_loop]. unfold args_end. destruct (Nat.leb_spec back index) as [Hb|Hb].
+    + rewrite rng_nil by lia. reflexivity.
+    + rewrite rng_cons by lia. cbn [omap]. unfold arg_at at 1.
+      destruct (nth_error exts (di + index)) as [e|]; [|reflexivity].
+      destruct (pd_arg e) as [s l]. rewrite IH by lia. reflexivity.
+Qed.
+
+Lemma omap_snoc_ok {X Y} (f : X -> outcome Y) l x r :
+  omap f (l ++ [x]) = Ok r -> exists r1 a, omap f l = Ok r1 /\ f x = Ok a /\ r = r1 ++ [a].
+Proof.
+  revert r. induction l as [|y l IH]; intros r H; cbn [app omap] in H.
+  - destruct (f x) as [a| |] eqn:E; try discriminate. cbn [obind] in H. inversion H; subst.
+    exists [], a. repeat split; reflexivity.
+  - destruct (f y) as [b| |] eqn:Ey; try discriminate. cbn [obind] in H.
+    destruct (omap f (l ++ [x])) as [r'| |] eqn:Er; try discriminate. cbn [obind] in H. inversion H; subst.
+    destruct (IH r' eq_refl) as (r1 & a & E1 & E2 & E3). exists (b :: r1), a.
+    cbn [omap]. rewrite Ey, E1. cbn [obind]. subst r'. repeat split; try reflexivity. exact E2.
+Qed.
+
+Lemma de_drive_char : forall sched index back l,
+  omap argf (rng index back) = Ok l ->
+  de_drive data exts di sched (index, back) = Ok (deque_drive sched l).
+Proof.
+  induction sched as [|front sched IH]; intros index back l H; [reflexivity|].
+  cbn [de_drive]. destruct front.
+  - unfold de_next. destruct (Nat.leb_spec back index) as [Hb|Hb].
+    + rewrite rng_nil in H by lia. cbn [omap] in H. inversion H; subst. cbn [obind snd fst].
+      rewrite (IH index back []); [|rewrite rng_nil by lia; reflexivity]. cbn [obind deque_drive].
+      destruct (deque_drive sched []); reflexivity.
+    + rewrite rng_cons in H by lia. cbn [omap] in H.
+      destruct (argf (di + index)) as [a| |] eqn:Ea; try discriminate. cbn [obind] in H.
+      destruct (omap argf (rng (S index) back)) as [l'| |] eqn:El; try discriminate. cbn [obind] in H.
+      inversion H; subst. cbn [obind snd fst]. rewrite (IH _ _ _ El). cbn [obind deque_drive]. reflexivity.
+  - unfold de_next_back. destruct (Nat.leb_spec back index) as [Hb|Hb].
+    + rewrite rng_nil in H by lia. cbn [omap] in H. inversion H; subst. cbn [obind snd fst].
+      rewrite (IH index back []); [|rewrite rng_nil by lia; reflexivity]. cbn [obind deque_drive].
+      destruct (deque_drive sched []); reflexivity.
+    + destruct (Nat.eqb_spec (di + back) 0); [lia|].
+      rewrite rng_snoc in H by lia. apply omap_snoc_ok in H as (r1 & a & E1 & E2 & E3).
+      rewrite E2. cbn [obind snd fst]. rewrite (IH _ _ _ E1). cbn [obind]. subst l.
+      destruct r1 as [|b r1]; cbn [app deque_drive].
+      * reflexivity.
+      * change (b :: r1 ++ [a]) with ((b :: r1) ++ [a]). rewrite removelast_last, last_last. reflexivity.
+Qed.
+
+Lemma de_back_all_char : forall fuel index back l, (back - index < fuel)%nat ->
+  omap argf (rng index back) = Ok l ->
+  de_back_all data exts di fuel (index, back) = Ok (rev l).
+Proof.
+  induction fuel as [|fuel IH]; intros index back l Hf H; [lia|].
+  cbn [de_back_all]. unfold de_next_back. destruct (Nat.leb_spec back index) as [Hb|Hb].
+  - rewrite rng_nil in H by lia. cbn [omap] in H. inversion H; subst. reflexivity.
+  - destruct (Nat.eqb_spec (di + back) 0); [lia|].
+    rewrite rng_snoc in H by lia. apply omap_snoc_ok in H as (r1 & a & E1 & E2 & E3).
+    rewrite E2. cbn [obind snd fst]. rewrite (IH _ _ r1) by (try lia; exact E1). cbn [obind].
+    subst l. rewrite rev_app_distr. reflexivity.
+Qed.
+End DoubleEndedProofs.
+
+Lemma pa_args_char data exts pa l : pa_args args_end data exts pa = Ok l ->
+  omap (arg_at data exts) (rng (fst pa) 1 (snd pa)) = Ok l /\ (snd pa - 1 <= length l)%nat.
+Proof.
+  unfold pa_args. intros H.
+  assert (Hlen : forall fuel index back r, args_loop args_end fuel data exts (fst pa) back index = Ok r ->
+                                           (back - index <= fuel -> length r = back - index)%nat).
+  { induction fuel as [|fuel IH]; intros index back r Hr Hf.
+    - cbn [args_loop] in Hr. unfold args_end at 1 in Hr. destruct (Nat.leb_spec back index); [|discriminate].
+      inversion Hr; subst. cbn [length]. lia.
+    - cbn [args_loop] in Hr. unfold args_end at 1 in Hr. destruct (Nat.leb_spec back index).
+      + inversion Hr; subst. cbn [length]. lia.
+      + destruct (nth_error exts (fst pa + index)) as [e|]; [|discriminate]. destruct (pd_arg e) as [s l0].
+        destruct (slice_chk s (s + l0) data) as [a| |]; try discriminate. cbn [obind] in Hr.
+        destruct (args_loop args_end fuel data exts (fst pa) back (S index)) as [r'| |] eqn:Er; try discriminate.
+        cbn [obind] in Hr. inversion Hr; subst. cbn [length]. rewrite (IH _ _ _ Er) by lia. lia. }
+  (* the forward loop reads exts[data_index + index]: all of them exist, so back_index - 1 <= length exts *)
+  destruct (Nat.le_gt_cases (snd pa - 1) (S (length exts))) as [Hle|Hgt].
+  - rewrite args_loop_char in H by lia. split; [exact H|].
+    assert (length l = length (rng (fst pa) 1 (snd pa))) as ->.
+    { clear -H. revert l H. generalize (rng (fst pa) 1 (snd pa)). intros xs. induction xs as [|x xs IH]; intros r Hr; cbn [omap] in Hr.
+      - inversion Hr; reflexivity.
+      - destruct (arg_at data exts x); try discriminate. cbn [obind] in Hr. destruct (omap (arg_at data exts) xs); try discriminate.
+        cbn [obind] in Hr. inversion Hr; subst. cbn [length]. f_equal. apply IH. reflexivity. }
+    unfold rng. rewrite map_length, seq_length. lia.
+  - exfalso.
+    (* with back_index - 1 > S (length exts) the loop runs out of the vector before it runs out of fuel *)
+    assert (Hbad : forall fuel index, (fuel + index = S (S (length exts)))%nat -> (index < snd pa)%nat ->
+                   forall r, args_loop args_end fuel data exts (fst pa) (snd pa) index <> Ok r).
+    { induction fuel as [|fuel IH]; intros index Hs Hi r Hr.
+      - cbn [args_loop] in Hr. unfold args_end at 1 in Hr. destruct (Nat.leb_spec (snd pa) index); [lia|]. discriminate.
+      - cbn [args_loop] in Hr. unfold args_end at 1 in Hr. destruct (Nat.leb_spec (snd pa) index); [lia|].
+        destruct (nth_error exts (fst pa + index)) as [e|] eqn:En; [|discriminate]. destruct (pd_arg e) as [s l0].
+        destruct (slice_chk s (s + l0) data) as [a| |]; try discriminate. cbn [obind] in Hr.
+        destruct (args_loop args_end fuel data exts (fst pa) (snd pa) (S index)) as [r'| |] eqn:Er; try discriminate.
+        assert (fst pa + index < length exts)%nat by (apply nth_error_Some; rewrite En; discriminate).
+        eapply (IH (S index)); [lia|lia|exact Er]. }
+    eapply (Hbad (S (length exts)) 1%nat); [lia|lia|exact H].
+Qed.
+
+(** [.iter().rev()] yields the arguments of [.iter()] in reverse order (and fails where it fails). *)
+Theorem args_rev_is_reverse_model data exts pa l :
+  pa_args args_end data exts pa = Ok l -> pa_args_back data exts pa = Ok (rev l).
+Proof.
+  intros H. apply pa_args_char in H as [H _]. unfold pa_args_back.
+  apply de_back_all_char; [lia|exact H].
+Qed.
+
+(** Any interleaving of [next] and [next_back] behaves as a deque on the list of arguments. *)
+Theorem args_double_ended_model data exts pa l sched :
+  pa_args args_end data exts pa = Ok l -> pa_args_drive data exts pa sched = Ok (deque_drive sched l).
+Proof.
+  intros H. apply pa_args_char in H as [H _]. unfold pa_args_drive. apply de_drive_char. exact H.
+Qed.
+
+(** ... so every argument is yielded at most once, in order from both ends, and all of them once the
+    schedule is as long as the list. *)
+Lemma deque_each_once_model : forall sched l,
+  exists mid, l = fst (deque_drive sched l) ++ mid ++ rev (snd (deque_drive sched l)) /\
+              (length l <= length sched -> mid = [])%nat.
+Proof.
+  induction sched as [|front sched IH]; intros l.
+  - exists l. cbn [deque_drive fst snd rev]. rewrite app_nil_r. split; [reflexivity|].
+    cbn [length]. intros H. destruct l; [reflexivity|cbn [length] in H; lia].
+  - destruct l as [|a l].
+    + exists []. assert (E : deque_drive (front :: sched) [] = deque_drive sched []) by (destruct front; reflexivity).
+      rewrite E. destruct (IH []) as (mid & E1 & E2). rewrite (E2 ltac:(cbn [length]; lia)) in E1.
+      split; [exact E1|reflexivity].
+    + destruct front; cbn [deque_drive fst snd].
+      * destruct (IH l) as (mid & E1 & E2). exists mid. split.
+        -- cbn [app]. f_equal. exact E1.
+        -- cbn [length]. intros H. apply E2. lia.
+      * destruct (IH (removelast (a :: l))) as (mid & E1 & E2). exists mid.
+        assert (Hl : a :: l = removelast (a :: l) ++ [last (a :: l) []]) by (apply app_removelast_last; discriminate).
+        split.
+        -- cbn [rev]. rewrite Hl at 1. rewrite E1 at 1. rewrite <- !app_assoc. reflexivity.
+        -- intros H. apply E2. rewrite Hl in H. rewrite app_length in H. cbn [length] in H. cbn [length]. lia.
+Qed.
+
+(** the complete reading of a line with a second way of reading the arguments *)
+Lemma present_parse_de_char {R} (f : bytes -> list posdata -> span -> outcome R) (g : list bytes -> R) data :
+  (forall exts pa a, pa_args args_end data exts pa = Ok a -> f data exts pa = Ok (g a)) ->
+  present_parse_de f data =
+  match present_parse data with
+  | Ok (Some p) => Ok (Some (map (fun e => (fst e, snd e, g (snd e))) (p_entries p)))
+  | Ok None => Ok None
+  | Err e => Err e
+  | Panic => Panic
+  end.
+Proof.
+  intros Hf. destruct (present_parse_total data) as (r & E & _). rewrite E.
+  unfold present_parse, present_parse_with in E. unfold present_parse_de.
+  destruct (pe_new data_start_fixed data) as [[[exts ds]|]| |]; try discriminate; [|inversion E; reflexivity].
+  destruct (split_off ds data) as [body| |]; try discriminate. cbn [obind] in E.
+  destruct (iter_all (S (length exts)) exts 0) as [pas| |]; try discriminate. cbn [obind] in E |- *.
+  match type of E with obind (omap ?F pas) _ = _ => destruct (omap F pas) as [es| |] eqn:Ees; try discriminate end.
+  cbn [obind] in E. inversion E; subst r. cbn [p_entries].
+  assert (H : omap (fun pa => obind (pa_name data exts pa) (fun n =>
+                            obind (pa_args args_end data exts pa) (fun a =>
+                            obind (f data exts pa) (fun r => Ok (n, a, r))))) pas
+              = Ok (map (fun e => (fst e, snd e, g (snd e))) es)).
+  { clear E. revert es Ees. induction pas as [|pa pas IH]; intros es Ees; cbn [omap] in *.
+    - inversion Ees; reflexivity.
+    - destruct (pa_name data exts pa) as [n| |]; try discriminate. cbn [obind] in *.
+      destruct (pa_args args_end data exts pa) as [a| |] eqn:Ea; try discriminate. cbn [obind] in *.
+      rewrite (Hf _ _ _ Ea). cbn [obind].
+      match type of Ees with obind (omap ?F pas) _ = _ => destruct (omap F pas) as [es'| |] eqn:E'; try discriminate end.
+      cbn [obind] in Ees. inversion Ees; subst es. rewrite (IH es' eq_refl). cbn [obind map fst snd]. reflexivity. }
+  rewrite H. reflexivity.
+Qed.
